@@ -61,6 +61,10 @@ def calls_of(case):
     if k == 'inverse':
         n, u = case['n'], case['u']
         return [(case['t'], {'str': '%d%s%d%s' % (n, u, -n, u)})]
+    if k == 'repeat':
+        # the SAME tenor from several starts, one after the other in one process (state a call leaves behind
+        # - a memo keyed by tenor / weekday - must not leak into the next call), the first start once more at the end
+        return [(t, case['bump']) for t in case['ts']] + [(case['ts'][0], case['bump'])]
     raise ValueError(k)
 
 # ---------------- Coq side
@@ -177,6 +181,16 @@ def impl(case):
     elif k == 'compose_b':
         if res[1] != res[2]:
             viol = "'%db' then '%db' from weekday %s gives %s, '%db' gives %s" % (case['a'], case['b'], us2dt(case['t']), res[1], case['a'] + case['b'], res[2])
+    elif k == 'repeat':
+        for (t0, b), r in zip(calls_of(case), res):
+            exp = us2dt(t0)
+            for n, u in bump_tokens(b):
+                exp = expected_single(exp, n, u)
+            if exp != r:
+                viol = 'dt_bump(%s, %r) = %s after earlier calls with the same tenor in this process, but the tenor applied part by part gives %s' % (us2dt(t0), py_bump(b), r, exp)
+                break
+        if viol is None and res[0] != res[-1]:
+            viol = 'dt_bump(%s, %r) gave %s first and %s when called again' % (us2dt(case['ts'][0]), py_bump(case['bump']), res[0], res[-1])
     elif k == 'inverse':
         if res[0] != us2dt(case['t']):
             viol = '+%d%s then -%d%s from %s returns %s' % (case['n'], case['u'], case['n'], case['u'], us2dt(case['t']), res[0])
@@ -293,6 +307,19 @@ def gen_cases(rng, tier):
             else:
                 t += rand_tod(rng)
             cases.append({'kind': 'inverse', 't': t, 'n': abs(n), 'u': u})
+    for _ in range(150 if tier == 'quick' else 3000):     # one tenor, many starts, same process (no m/q/y parts: any time of day)
+        k = rng.choice([1, 2, 2, 3])
+        units = 'dwhnsb'
+        parts = [(rng.choice([rng.randrange(-30, 31), rng.randrange(-3, 4)]), rng.choice(units)) for _ in range(k)]
+        if rng.random() < 0.5:      # an intraday part BEFORE a business-day part: the time of day decides the weekday the b part starts from
+            parts = [(rng.choice([-30, -12, -6, 6, 12, 18, 30]), 'h')] + [(rng.randrange(-5, 6), 'b')] + parts[:1]
+        s = ''.join('%d%s' % (n, u) for n, u in parts)
+        day = rand_day(rng)
+        ts = []
+        for j in range(rng.randrange(3, 7)):
+            d = day + rng.choice([0, 0, 7, 14, rng.randrange(0, 7)])       # mostly the same weekday
+            ts.append(d * DAYUS + rng.choice([0, 6 * 3600 * 10**6, 18 * 3600 * 10**6, 86399999999, rng.randrange(DAYUS)]))
+        cases.append({'kind': 'repeat', 'ts': ts, 'bump': {'str': s}})
     apis = ['dt', 'upper', 'split', 'dt_split']
     for c in cases:
         if c['kind'] == 'bump' and 'str' in c['bump'] and c['bump']['str'] not in NAMED and rng.random() < 0.3:
